@@ -350,9 +350,25 @@ theorem run_completePost (c : Cfg) (hf : c.metaFails = false) (hi : c.infoFails 
   rw [hmap, List.cons_append, List.cons_append, hf, hi]
   cases hm : c.hasMeta <;> simp only [run, exec, Bool.false_eq_true, ↓reduceIte] <;> rw [hdrop]
 
-theorem completeProg_eq (c : Cfg) :
+/-- the program of a complete whose part list names a part -/
+theorem completeProg_eq (c : Cfg) (h : c.parts ≠ []) :
     completeProg c = c.parts.map .probe ++ .sizes (c.parts.all Part.fine) :: .create ::
-      (c.parts.map .part ++ .mkdirs c.mkdirsFails :: .rename c.renameFails :: completePost c) := rfl
+      (c.parts.map .part ++ .mkdirs c.mkdirsFails :: .rename c.renameFails :: completePost c) := by
+  unfold completeProg
+  cases hp : c.parts with
+  | nil => exact absurd hp h
+  | cons p r => simp
+
+/-- the program of a complete without a part list or with an empty one (a00e4e8): the refusal -/
+theorem completeProg_nil (c : Cfg) (h : c.parts = []) : completeProg c = [.listed false] := by
+  unfold completeProg
+  simp [h]
+
+/-- … which answers `MalformedXML` and changes nothing, at any fault position -/
+theorem refusal_changes_nothing (s : St) (ho : s.owned = false) :
+    run [.listed false] s = (.malformedXML, s) ∧ ∀ k, cleanup (outSt (prefixRun k [.listed false] s)) = s := by
+  refine ⟨by simp [run, exec, cleanup, ho], fun k => ?_⟩
+  rcases k with _ | k <;> simp [prefixRun, exec, outSt, cleanup, ho]
 
 theorem putObjectProg_eq (c : Cfg) :
     putObjectProg c = .create :: (c.frames.map .frame ++
